@@ -2,6 +2,7 @@ package verifsim
 
 import (
 	"context"
+	"errors"
 	"fmt"
 	"io"
 	"math/rand/v2"
@@ -14,18 +15,21 @@ import (
 // C16: Close, alerts and deadlines are safe at any moment, on any goroutine.
 
 type C16Params struct {
-	Variant    string   `json:"variant,omitempty"` // handshake-phase runs
-	Cfg        string   `json:"cfg,omitempty"`     // data-phase runs
-	Step       int      `json:"step"`              // controller step (since phase start) at which the action fires
-	Action     string   `json:"action"`            // close | rdeadline | wdeadline | alert
-	Who        string   `json:"who"`               // c | s | both
-	Closers    int      `json:"closers"`
-	Pre        string   `json:"pre,omitempty"` // deadline state set right before Close: wpast | rpast | bothpast
-	Stall      bool     `json:"stall,omitempty"`
-	ParkPm     int      `json:"park_pm,omitempty"`
-	Rules      NetRules `json:"rules"`
-	DeadlineMs int      `json:"deadline_ms,omitempty"`
-	Enum       string   `json:"enum,omitempty"`
+	Variant string `json:"variant,omitempty"` // handshake-phase runs
+	Cfg     string `json:"cfg,omitempty"`     // data-phase runs
+	Step    int    `json:"step"`              // controller step (since phase start) at which the action fires
+	Action  string `json:"action"`            // close | rdeadline | wdeadline | alert
+	Who     string `json:"who"`               // c | s | both
+	Closers int    `json:"closers"`
+	Pre     string `json:"pre,omitempty"` // deadline state set right before Close: wpast | rpast | bothpast
+	Stall   bool   `json:"stall,omitempty"`
+	// PeerWriteErr: from the moment the action fires, every write of the *other* endpoint's
+	// transport fails (ENOBUFS-like), so it cannot send its reply to a close_notify
+	PeerWriteErr bool     `json:"peer_write_err,omitempty"`
+	ParkPm       int      `json:"park_pm,omitempty"`
+	Rules        NetRules `json:"rules"`
+	DeadlineMs   int      `json:"deadline_ms,omitempty"`
+	Enum         string   `json:"enum,omitempty"`
 }
 
 // Op is one tracked API call.
@@ -116,6 +120,7 @@ func c16Gen(r *rand.Rand, tier string, idx int) any {
 			p.Cfg = ds[r.IntN(len(ds))].Name
 			p.Step = r.IntN(80)
 			p.Stall = r.IntN(3) == 0
+			p.PeerWriteErr = r.IntN(4) == 0
 		}
 		p.Who = c16Who[r.IntN(3)]
 		p.Closers = 1 + r.IntN(4)
@@ -388,6 +393,9 @@ func c16Run(rc *RunCtx, params any) {
 	fire := func() {
 		fired = true
 		firedAt = s.Now()
+		if p.PeerWriteErr && p.Who != "both" {
+			socks[other[p.Who]].WriteErr = func(int) error { return errors.New("simnet: write: no buffer space available") }
+		}
 		for _, ep := range targets {
 			ep := ep
 			if readers[ep] != nil && readers[ep].Done {
